@@ -385,7 +385,10 @@ def lookup(lookup_value, lookup_array, result_range=None):
 def match(lookup_value, lookup_array, match_type=1):
     # Excel reference: https://support.microsoft.com/en-us/office/
     #   match-function-e8dffd45-c762-47d6-bf89-533f4a37673a
-    if len(lookup_array) == 1:
+    if not list_like(lookup_array):
+        # a single cell is a vector of one
+        lookup_array = (lookup_array, )
+    elif len(lookup_array) == 1:
         lookup_array = lookup_array[0]
     else:
         lookup_array = tuple(row[0] for row in lookup_array)
